@@ -4,7 +4,8 @@
    fld_cfg_groups / fld_tokens; both are what the harness does through the real constructors,
    get_configuration() and the get_backend() chain, and what make_parameter_pack_for forwards. *)
 From Coq Require Import ZArith List Bool.
-From Covfie Require Import Stack StackGlue StackGlueProofs.
+From Covfie Require Import Stack StackGlue StackGlueProofs Refine_Ppf.
+From Covfie.gen Require Import Gen_Ppf.
 Import ListNotations.
 Local Open Scope Z_scope.
 
@@ -31,6 +32,15 @@ Example C17_example :
   = Some ([CBox [0; 0] [1; 2]; CBackup [0; 0] [1; 1] [7]; CSizes [2; 3]], DArray 6 [1; 2; 3; 4; 5; 6], []).
 Proof. vm_compute. reflexivity. Qed.
 
+(* the positional construction helper, from the source of this run (gen/Gen_Ppf.v): one make_parameter_pack_for overload
+   for every stack depth 1..10; the overload for depth d has d parameters, the k-th typed as the configuration of layer
+   level k and handed to make_parameter_pack as the k-th argument at that level; parameter_pack keeps head then tail *)
+Theorem C17_helper_table_is_positional :
+  ppf_overloads = map (fun d => (d, seq 0 d, map (fun k => (k, k)) (seq 0 d))) (seq 1 10) /\
+  ppf_pack_shape = HeadThenTail /\ ppf_problems = O.
+Proof. exact (conj ppf_table (conj ppf_pack_head_then_tail ppf_all_read)). Qed.
+
 Print Assumptions C17_configs_of_constructed.
+Print Assumptions C17_helper_table_is_positional.
 Print Assumptions C17_rebuild_from_configs.
 Print Assumptions C17_config_positions.
